@@ -339,9 +339,31 @@ fn gen_big_bench(rng: &mut Rng) -> Case {
     c
 }
 
+/// 520-600 models and, added last, a hub whose `init` broadcasts to all of them: messages sent
+/// during init to models that are already initialised, more of them than a worker's local queue
+/// holds.
+fn gen_init_fanout(rng: &mut Rng) -> Case {
+    let mut c = gen_fanout_bench(rng);
+    let leaves = rng.range(520, 600) as usize;
+    let hub_idx = leaves as u16;
+    let mut nodes: Vec<NodeSpec> = (0..leaves)
+        .map(|i| NodeSpec { name: format!("leaf{}", i), parent: None, cap: *rng.pick(&[1u8, 2, 16]), registered: true, dead: false, outs: vec![], reqs: vec![], init: vec![], on: vec![vec![]], panic_at: None, late_mailbox: false, reply_take: None, sync_inputs: false })
+        .collect();
+    let port: Vec<Edge> = (0..leaves).map(|i| Edge { cid: 60_000 + i as u32, target: Target::Node(i as u16), map: i % 7 == 0, filter: None }).collect();
+    nodes.push(NodeSpec { name: "hub".into(), parent: None, cap: 16, registered: true, dead: false, outs: vec![port], reqs: vec![], init: vec![Op::Send { port: 0, kind: 0 }], on: vec![vec![Op::Send { port: 0, kind: 0 }]], panic_at: None, late_mailbox: false, reply_take: None, sync_inputs: false });
+    c.nodes = nodes;
+    c.cfg.threads = rng.range(2, 4) as u8;
+    c.script = vec![Cmd::ProcessEvent { target: hub_idx, kind: 0 }];
+    c.profile = "init-fanout".into();
+    c
+}
+
 fn gen_c16(rng: &mut Rng, thorough: bool) -> Case {
     if rng.below(1000) < (if thorough { 5 } else { 2 }) {
         return gen_big_bench(rng);
+    }
+    if rng.below(10_000) < 6 {
+        return gen_init_fanout(rng);
     }
     let o = BenchOpts {
         min_nodes: 2,
